@@ -334,7 +334,8 @@ class Prov:
                 return ("ref", False, self.place(rv["p"], at, depth + 1, seen))
             return ("ref", rv["m"], self.place_expr(rv["p"], at, depth, seen))
         if k == "rawptr":
-            return ("addr", rv["m"] == "Mut", self.place_expr(rv["p"], at, depth, seen))
+            pty = rv["p"].get("ty") or self.local_ty.get(rv["p"]["l"])
+            return ("addr", rv["m"] == "Mut", self.place_expr(rv["p"], at, depth, seen), pty)
         if k == "discr":
             return ("discr", self.place(rv["p"], at, depth + 1, seen))
         if k == "agg":
